@@ -48,81 +48,71 @@ def _is_precision_test(v: CalibrateView, n) -> bool | None:
 
 
 def r1_exits(ctx: Context, v: CalibrateView) -> None:
-    g, head = v.g, v.head
-    # iterator: range(n_batches) - range exhaustion over the requested number of batches
+    """The batch loop is left early exactly when a precision is set and check_convergence(...) is true - whatever verbosity, the saving
+    folder or anything else say.  Decided on the truth table of (precision set, converged): one iteration of the loop is evaluated
+    abstractly for each row (sa/pathval.py), tests on anything else fork, and every resulting path must take the expected exit."""
+    from ..calib import iteration_table
+    head = v.head
     ctx.check(src(head.ast) == "range(n_batches)", "R1.range", "Calibrator.calibrate:loop-iterator",
               "the batch loop iterates range(n_batches)", f"the batch loop iterates `{src(head.ast)}`", v.cal, head.ast)
-    leaving = [n for n in v.loop_nodes if n is not head and any(t not in v.loop_nodes and lab != "exc" for t, lab in n.succ)]
-    breaks = [n for n in leaving if n.kind == "break"]
-    others = [n for n in leaving if n.kind != "break"]
-    for n in others:
-        ctx.fail("R1.exits", f"Calibrator.calibrate:loop-exit:{n.kind}", f"the batch loop is left by `{src(n.ast)}` (only range exhaustion and the convergence break are allowed)", v.cal, n.ast)
-    conv_calls = v.convergence
-    ctx.floor("R1", "check_convergence call in calibrate", len(conv_calls), 1)
-    ctx.check(len(breaks) == 1, "R1.exits", "Calibrator.calibrate:break-count", "exactly one break leaves the batch loop",
-              f"{len(breaks)} break statements leave the batch loop", v.cal, head.ast)
-    for b in breaks:
-        closure = {t for t, _ in g.control_closure(b, head) if t.kind == "test" and t in v.loop_nodes}
-        direct = g.control_deps(b, head)
-        dep_ok = True
-        seen_prec = seen_conv = False
-        for t in closure:
-            p = _is_precision_test(v, t)
-            if p is not None:
-                seen_prec = True
-                continue
-            leaves = v.leaves(t.ast)
-            is_conv = _is_conv_result(v, t.ast, conv_calls)
-            if is_conv:
-                seen_conv = True
-                continue
-            dep_ok = False
-            ctx.fail("R1.break-deps", f"Calibrator.calibrate:break-depends-on:{'+'.join(sorted(leaves)) or src(t.ast)}",
-                     f"the early-stopping break is control dependent on `{src(t.ast)}` (depends on {sorted(leaves)}); "
-                     "it may depend only on the convergence test and on a precision being set", v.cal, t.ast)
-        if dep_ok:
-            ctx.ok("R1.break-deps", "Calibrator.calibrate:break-depends-on", "break depends only on {precision set, converged}")
-        ctx.check(seen_conv, "R1.break-conv", "Calibrator.calibrate:break-on-convergence",
-                  "the break is controlled by the result of check_convergence", "the break is not controlled by check_convergence's result", v.cal, b.ast)
-        # polarity: the break is on the true edge of the convergence test and on the 'precision set' side
-        for t, lab in g.control_closure(b, head):
-            if t.kind != "test" or t not in v.loop_nodes:
-                continue
-            p = _is_precision_test(v, t)
-            if p is not None:
-                ctx.check((lab == "true") == p, "R1.polarity", "Calibrator.calibrate:break:precision-side",
-                          "the break is on the `precision is set` side", "the break is taken when NO precision is set", v.cal, t.ast)
-            elif _is_conv_result(v, t.ast, conv_calls):
-                if (t, lab) in direct or True:
-                    neg = _negated(t)
-                    ctx.check((lab == "true") != neg, "R1.polarity", "Calibrator.calibrate:break:converged-side",
-                              "the break is taken when check_convergence is true", "the break is taken when check_convergence is FALSE", v.cal, t.ast)
-        # the break is reached whenever converged holds: nothing else between test and break can divert
-        conv_tests = [t for t in closure if _is_conv_result(v, t.ast, conv_calls)]
-        for t in conv_tests:
-            tgt = [s for s, lab in t.succ if lab == "true"]
-            if tgt:
-                p = g.path_avoiding(t, {head} | v.exits - {s for s, _ in b.succ}, {b}, edge_ok=lambda a, bb, lab, t=t: not (a is t and lab != "true") and lab != "exc")
-                ctx.check(p is None, "R1.must-break", "Calibrator.calibrate:converged-implies-break",
-                          "once check_convergence is true every path reaches the break", "a path continues the loop although check_convergence was true",
-                          v.cal, t.ast, path_text(v.cal, p))
-
-
-def _negated(t) -> bool:
-    return False  # `not` is already folded into edge labels by the CFG builder
-
-
-def _is_conv_result(v: CalibrateView, e: ast.expr, conv_calls: list[ast.Call]) -> bool:
-    if e in conv_calls:
-        return True
-    if isinstance(e, ast.Name):
-        defs = v.local_defs(e.id)
-        return len(defs) >= 1 and all(d in conv_calls for d in defs)
-    return False
+    ctx.floor("R1", "check_convergence call in calibrate", len(v.convergence), 1)
+    rows = []
+    n_paths = 0
+    for P in (True, False):
+        for C in (True, False):
+            paths = iteration_table(v, {"P": P, "C": C})
+            n_paths += len(paths)
+            want_break = P and C
+            outcomes = sorted({p.outcome for p in paths})
+            rows.append({"precision_set": P, "converged": C, "paths": len(paths), "outcomes": outcomes, "expected": "break" if want_break else "continue"})
+            for p in paths:
+                if p.outcome in ("return", "raise", "leave", "end"):
+                    ctx.fail("R1.exits", f"Calibrator.calibrate:loop-exit:{p.outcome}", f"with precision {'set' if P else 'None'} and converged={C} the batch loop is left by a `{p.outcome}` "
+                             f"(only range exhaustion and the convergence break are allowed); path guesses: {list(p.forks)[:4]}", v.cal, head.ast, [f"{k} L{ln}" for k, ln in p.where[-12:]])
+                    break
+            bad = [p for p in paths if (p.outcome == "break") != want_break and p.outcome in ("break", "continue")]
+            if bad:
+                p = bad[0]
+                if want_break:
+                    deps = sorted(set(p.forks))
+                    ctx.fail("R1.must-break", "Calibrator.calibrate:converged-implies-break", "a precision is set and check_convergence is true, yet an iteration can go on to the next batch"
+                             + (f" - depending on {deps[:3]}" if deps else ""), v.cal, head.ast, [f"{k} L{ln}" for k, ln in p.where[-14:]])
+                else:
+                    deps = sorted(set(p.forks))
+                    what = "no precision is set" if not P else "check_convergence is false"
+                    ctx.fail("R1.break-deps", f"Calibrator.calibrate:break-depends-on:{'+'.join(d[:40] for d in deps[:2]) or 'nothing'}", f"the batch loop is left early although {what}"
+                             + (f" - the break depends on {deps[:3]}" if deps else ""), v.cal, head.ast, [f"{k} L{ln}" for k, ln in p.where[-14:]])
+            else:
+                ctx.ok("R1.table", f"Calibrator.calibrate:precision={'set' if P else 'None'}:converged={C}", f"{len(paths)} abstract path(s): all {'break' if want_break else 'continue'}")
+            # R2: the convergence test is evaluated iff a precision is set, once per iteration, after this batch's losses and counter were recorded
+            for p in paths:
+                n_conv = p.events.count("conv")
+                if not P and n_conv:
+                    ctx.fail("R2.guard", "Calibrator.calibrate:check_convergence-iff-precision", "check_convergence is evaluated although convergence_precision is None (None would reach np.round)",
+                             v.cal, v.convergence[0], [f"{k} L{ln}" for k, ln in p.where[-14:]])
+                    break
+                if P and n_conv == 0:
+                    deps = sorted(set(p.forks))
+                    ctx.fail("R2.every-iteration", "Calibrator.calibrate:check_convergence-guard", "a precision is set, yet an iteration can end without evaluating check_convergence"
+                             + (f" - it is additionally guarded by {deps[:3]}" if deps else ""), v.cal, v.convergence[0], [f"{k} L{ln}" for k, ln in p.where[-14:]])
+                    break
+                if P and n_conv:
+                    first = p.events.index("conv")
+                    for attr in ("losses_samp", "n_sampled_params"):
+                        if f"write:{attr}" not in p.events[:first]:
+                            ctx.fail("R2.after-update", f"Calibrator.calibrate:check_convergence-after:{attr}", f"check_convergence can run before {attr} is extended with this batch", v.cal, v.convergence[0],
+                                     [f"{k} L{ln}" for k, ln in p.where[-14:]])
+                            break
+                    else:
+                        continue
+                    break
+    ctx.tables["C14.R1.truth_table"] = {"rows": rows, "exhaustive": True, "atoms": ["convergence_precision is not None", "check_convergence(...)"], "forked_on": "every other test"}
+    ctx.notes["abstract_paths"] = n_paths
+    if not any(f.rule.startswith("R2") for f in ctx.findings):
+        ctx.ok("R2.discipline", "Calibrator.calibrate:check_convergence-discipline", "check_convergence is evaluated iff a precision is set, in every such iteration, after losses and counter were extended")
 
 
 def r2_call_discipline(ctx: Context, v: CalibrateView) -> None:
-    g, head = v.g, v.head
     n = normaliser(ctx.prog, v.cal, inline_locals=False)
     for c in v.convergence:
         args = [str(n.rat(a)) for a in c.args] + [f"{k.arg}={n.rat(k.value)}" for k in c.keywords]
@@ -131,25 +121,8 @@ def r2_call_discipline(ctx: Context, v: CalibrateView) -> None:
         ctx.check(args[: len(c.args)] == want[: len(c.args)] and kw_ok, "R2.args", "Calibrator.calibrate:check_convergence-args",
                   "check_convergence(self.losses_samp, self.n_sampled_params, self.convergence_precision)",
                   f"check_convergence is called with {args}", v.cal, c)
-        cn = v.nodes([c])
-        for node in cn:
-            ctx.check(node in v.loop_nodes, "R2.in-loop", "Calibrator.calibrate:check_convergence-in-loop",
-                      "check_convergence is evaluated inside the batch loop", "check_convergence is evaluated outside the batch loop", v.cal, c)
-            tests = {(t, lab) for t, lab in g.control_closure(node, head) if t.kind == "test" and t in v.loop_nodes}
-            extra = [t for t, lab in tests if _is_precision_test(v, t) is None]
-            ctx.check(not extra, "R2.every-iteration", "Calibrator.calibrate:check_convergence-guard",
-                      "check_convergence runs in every iteration in which a precision is set (guarded by nothing else)",
-                      f"check_convergence is additionally guarded by `{src(extra[0].ast) if extra else ''}`", v.cal, extra[0].ast if extra else c)
-            prec = [(t, lab) for t, lab in tests if _is_precision_test(v, t) is not None]
-            ctx.check(bool(prec) and all((lab == "true") == _is_precision_test(v, t) for t, lab in prec), "R2.guard", "Calibrator.calibrate:check_convergence-iff-precision",
-                      "check_convergence is evaluated iff convergence_precision is not None",
-                      "check_convergence is not guarded by `convergence_precision is not None` (None would reach np.round)", v.cal, c)
-            # after losses and the counter were extended in this iteration
-            for attr in ("losses_samp", "n_sampled_params"):
-                w = v.write_nodes([attr])
-                p = g.path_avoiding(head, {node}, w, labels=NORMAL)
-                ctx.check(p is None, "R2.after-update", f"Calibrator.calibrate:check_convergence-after:{attr}",
-                          f"check_convergence sees this batch's {attr}", f"check_convergence can run before {attr} is extended", v.cal, c, path_text(v.cal, p))
+        ctx.check(v.in_loop(c), "R2.in-loop", "Calibrator.calibrate:check_convergence-in-loop",
+                  "check_convergence is evaluated inside the batch loop", "check_convergence is evaluated outside the batch loop", v.cal, c)
 
 
 def r3_formula(ctx: Context) -> None:
@@ -204,37 +177,27 @@ def r4_checkpoint_on_every_exit(ctx: Context, v: CalibrateView, rule: str) -> No
         ok = len(c.args) == 1 and is_self_attr(c.args[0], v.sn, "saving_folder")
         ctx.check(ok, f"{rule}.folder", "Calibrator.calibrate:create_checkpoint-arg", "create_checkpoint(self.saving_folder)",
                   f"checkpoint written to `{src(c)}`", v.cal, c)
-    mutators = v.write_nodes([*HISTORY, *COUNTERS]) | v.nodes(v.update)
-    mutators = {m for m in mutators if m in v.loop_nodes}
-    ctx.floor(rule, "state mutations in the batch loop", len(mutators), 7)
-    ends = {head, g.exit} | v.exits
+    # Abstract evaluation of one iteration with a folder set (S true), for every row of (precision set, converged): on every path the last
+    # state mutation of the batch (history / counter write, scheduler.update) is followed by create_checkpoint before the iteration ends.
+    from ..calib import iteration_table
+    n_mut = len({id(s_) for a in [*HISTORY, *COUNTERS] for s_ in v.writes[a] if v.in_loop(s_)}) + len([c for c in v.update if v.in_loop(c)])
+    ctx.floor(rule, "state mutations in the batch loop", n_mut, 7)
     worst = None
-    for m in sorted(mutators, key=lambda n: n.idx):
-        p = g.path_avoiding(m, ends, cps, edge_ok=_folder_set_edge(v))
-        if p is not None:
-            worst = (m, p)
-            break
+    n_paths = 0
+    for P in (True, False):
+        for C in (True, False):
+            for p in iteration_table(v, {"P": P, "C": C, "S": True}):
+                n_paths += 1
+                muts = [i for i, e in enumerate(p.events) if e.startswith("write:") or e == "update"]
+                cps_ = [i for i, e in enumerate(p.events) if e == "checkpoint"]
+                if muts and (not cps_ or cps_[-1] < muts[-1]) and worst is None:
+                    worst = (p, p.events[muts[-1]], P, C)
+    ctx.notes[f"{rule}.abstract_paths"] = n_paths
     ctx.check(worst is None, f"{rule}.every-exit", "Calibrator.calibrate:checkpoint-after-mutation",
               "with a folder set, every path from a state mutation of the batch to the next iteration or to the end of the loop writes a checkpoint",
-              f"after `{src(worst[0].ast).splitlines()[0] if worst else ''}` the loop can be left / continued without create_checkpoint "
-              "(the state calibrate() returns with is not on disk)", v.cal, worst[0].ast if worst else None, path_text(v.cal, worst[1]) if worst else None)
-    # and the checkpoint must be unconditional apart from the folder test
-    for c in v.checkpoint:
-        for node in v.nodes([c]):
-            if node not in v.loop_nodes:
-                continue
-            extra = []
-            for t, lab in g.control_closure(node, head):
-                if t.kind != "test" or t not in v.loop_nodes:
-                    continue
-                e = t.ast
-                if isinstance(e, ast.Compare) and is_self_attr(e.left, v.sn, "saving_folder"):
-                    continue
-                if is_self_attr(e, v.sn, "saving_folder"):
-                    continue
-                extra.append(t)
-            # a checkpoint guarded by something else is fine only if another one covers the remaining paths: covered by the path query above
-            ctx.notes.setdefault("checkpoint_guards", []).append([src(t.ast) for t in extra])
+              (f"with a folder set (precision {'set' if worst[2] else 'None'}, converged={worst[3]}) an iteration ends by `{worst[0].outcome}` after `{worst[1]}` without a later create_checkpoint"
+               + (f" - depending on {sorted(set(worst[0].forks))[:3]}" if worst[0].forks else "") + ": the state calibrate() returns with is not on disk") if worst else "",
+              v.cal, v.checkpoint[0], [f"{k} L{ln}" for k, ln in worst[0].where[-14:]] if worst else None)
 
 
 def r5_precision_plumbing(ctx: Context) -> None:
